@@ -20,6 +20,8 @@ pub enum Step {
     Default,
     WithCapacity(usize),
     CloneSelf,
+    /// `a.clone_from(&b)` with b a fresh array of the given shape
+    CloneFrom(usize, usize),
     FromView(Win, bool),
     Ins { axis: Axis, idx: usize, len: usize, push: bool, ik: usize },
     Rem { axis: Axis, idx: usize, pop: bool, front: usize, back: usize, inter: usize },
@@ -31,6 +33,9 @@ pub enum Step {
     InPlace(Op),
     ViewOp(Win, Op),
     DataMut(usize),
+    /// insert with an iterator that lies about its length (C01 histories only): whatever happens, the
+    /// shape invariant must hold afterwards; the model is then re-synchronised from the array
+    InsLying { axis: Axis, idx: usize, real_len: usize, lie: u8, push: bool },
     /// C05 only: convert and rebuild (Vec::from / Box::from / into_iter)
     RoundTripVec,
     RoundTripBox,
@@ -47,6 +52,7 @@ impl Step {
             Step::Default => "default",
             Step::WithCapacity(_) => "with_capacity",
             Step::CloneSelf => "clone",
+            Step::CloneFrom(..) => "clone_from",
             Step::FromView(_, false) => "From<TooDeeView>",
             Step::FromView(_, true) => "From<TooDeeViewMut>",
             Step::Ins { axis: Axis::Row, push: false, .. } => "insert_row",
@@ -62,6 +68,8 @@ impl Step {
             Step::Reserve(_) => "reserve",
             Step::ReserveExact(_) => "reserve_exact",
             Step::Shrink => "shrink_to_fit",
+            Step::InsLying { axis: Axis::Row, .. } => "insert_row(lying iterator)",
+            Step::InsLying { axis: Axis::Col, .. } => "insert_col(lying iterator)",
             Step::InPlace(op) => op.kind(),
             Step::ViewOp(_, _) => "view_mut-op",
             Step::DataMut(_) => "data_mut",
@@ -186,6 +194,18 @@ impl<T: Elem + Clone + Ord + Default> Hist<T> {
                 let r2 = catches(|| self.a.clone());
                 res = r2.map(|n| self.a = n);
             }
+            Step::CloneFrom(c, r) => {
+                let (items, line) = fresh_line::<T>(c * r);
+                let src = TooDee::from_vec(if *r == 0 { 0 } else { *c }, if *c == 0 { 0 } else { *r }, if *c == 0 || *r == 0 { drop(items); vec![] } else { items });
+                newg = if src.num_cols() == 0 { Grid::empty() } else { Grid::from_flat(*c, *r, &line) };
+                if !keep {
+                    freshen(&mut newg);
+                }
+                verdict = Ok(());
+                let a = &mut self.a;
+                res = catches(|| a.clone_from(&src));
+                drop(src);
+            }
             Step::FromView(win, m) => {
                 verdict = match self.g.window(win.0, win.1) {
                     Ok(w) => {
@@ -212,6 +232,31 @@ impl<T: Elem + Clone + Ord + Default> Hist<T> {
                 }
                 let a = &mut self.a;
                 res = catches(|| do_insert(a, *axis, *push, *idx, items, *ik));
+            }
+            Step::InsLying { axis, idx, real_len, lie, push } => {
+                if self.valid_only {
+                    return StepOut::Skipped;
+                }
+                let lie = [LenLie::Plus(1), LenLie::Minus(1), LenLie::Fixed(0), LenLie::Fixed(usize::MAX), LenLie::Flicker, LenLie::Plus(2)][*lie as usize % 6];
+                let (items, _line) = fresh_line::<T>(*real_len);
+                let a = &mut self.a;
+                let it = Sup(SupIter::new(items, lie, false));
+                let r = catches(|| match (axis, push) {
+                    (Axis::Row, false) => a.insert_row(*idx, it),
+                    (Axis::Row, true) => a.push_row(it),
+                    (Axis::Col, false) => a.insert_col(*idx, it),
+                    (Axis::Col, true) => a.push_col(it),
+                });
+                ctx.count(if r.is_ok() { "lying_accepted" } else { "lying_panicked" }, 1);
+                if let Err(e) = crate::wl_serde::shape_ok(&self.a) {
+                    ctx.violation(opn, "shape:after-lying-iterator", format!("{}: {}", what, e));
+                    return StepOut::Failed;
+                }
+                // re-synchronise the model with whatever valid state the array is in now
+                self.g = read_ops::<T, _>(&self.a).expect("harness: shape_ok array must be readable");
+                let ok = check_tokens(ctx, opn, &self.a, &HashSet::new()) & check_double_drops(ctx, opn);
+                self.rejected += 1; // a leak is possible: the end-of-history leak check does not apply
+                return if ok { StepOut::Accepted } else { StepOut::Failed };
             }
             Step::Rem { axis, idx, pop, front, back, inter } => {
                 let dim = if *axis == Axis::Row { self.g.rows } else { self.g.cols };
@@ -498,6 +543,12 @@ pub fn rand_step(rng: &mut Rng, g: &Grid, invalid: bool, copy_ok: bool, conversi
     let roll = rng.below(100);
     let bad = invalid && rng.chance(1, 6);
     // structural operations dominate
+    if invalid && roll < 28 && !big && rng.chance(1, 12) {
+        let axis = if rng.chance(1, 2) { Axis::Row } else { Axis::Col };
+        let (dim, line) = if axis == Axis::Row { (r, c) } else { (c, r) };
+        let push = rng.chance(1, 3);
+        return Step::InsLying { axis, idx: if push { dim } else { rng.below(dim + 1) }, real_len: if c == 0 { rng.below(4) } else { line }, lie: rng.below(6) as u8, push };
+    }
     if roll < 14 && !big {
         let idx = if bad { r + 1 + rng.below(2) } else { rng.below(r + 1) };
         let len = if c == 0 { rng.below(maxdim.min(4) + 1) } else if invalid && rng.chance(1, 6) { c + 1 - 2 * rng.below(2) } else { c };
@@ -551,7 +602,8 @@ pub fn rand_step(rng: &mut Rng, g: &Grid, invalid: bool, copy_ok: bool, conversi
                 Step::FromBox(nc, nr, len)
             }
         }
-        62..=63 => Step::CloneSelf,
+        62 => Step::CloneSelf,
+        63 => Step::CloneFrom(rng.below(5), rng.below(5)),
         64..=65 => Step::FromView(rand_window(rng, c, r), rng.chance(1, 2)),
         66..=69 if conversions => {
             if rng.chance(1, 2) {
@@ -647,6 +699,7 @@ fn reduced_alphabet(d: usize) -> Vec<Step> {
     v.push(Step::SwapDims);
     v.push(Step::Shrink);
     v.push(Step::CloneSelf);
+    v.push(Step::CloneFrom(1, d));
     v
 }
 
